@@ -524,7 +524,9 @@ func propC06(c *Check) {
 					continue
 				}
 				v := p.R(fs.Fn).E(fs.Store.Val)
-				if regexp.MustCompile(`^append\((mix\{[^}]*\}|[^,]*\.` + f + `), `).MatchString(v) {
+				if addr := p.R(fs.Fn).E(fs.Store.Addr); v == addr || regexp.MustCompile(`^mix\{[^}]*\}$`).MatchString(v) && strings.Contains(v, addr) && !strings.Contains(v, "[") {
+					c.Held("R5", "tail-append "+f+" @ "+k, p.InstrPos(fs.Store), "the list is stored back unchanged (capacity adjustment)")
+				} else if regexp.MustCompile(`^append\((mix\{[^}]*\}|[^,]*\.` + f + `), `).MatchString(v) {
 					c.Held("R5", "tail-append "+f+" @ "+k, p.InstrPos(fs.Store), "")
 				} else {
 					c.Violated("R5", "tail-append "+f+" @ "+k, p.InstrPos(fs.Store), "queue list written other than by appending at the tail: "+v)
